@@ -153,7 +153,8 @@ def trainComp (env : Env) (name : String) (e : Expr) (forced isResponse full : B
               | some ls => pure ls
               | none => .error .typeError
           pure ⟨{ st with kind := .categoric, levels },
-                xs.map (fun x => [some (if x == some (Level.s r) then 1 else 0)]), none⟩
+                xs.map (fun x => [some (if x == some (Level.s r) then 1 else 0)]),
+                some [name ++ "[" ++ r ++ "]"]⟩
         | _, _ => do
           let (levels, cm, m) ← evalCategoric name xs d full
           pure ⟨{ st with kind := .categoric, levels, contrast := some cm }, m,
